@@ -8,8 +8,8 @@
   * `SVal`     a value of a sentence: a scalar, `nxA`, `b ... c`, an array (with an optional
                open end `...` behind its last element);
   * `Layout`   where the manual allows white space: white space / line breaks / `%` comments
-               in front of, between and behind the values (`Gap`s), and blanks at the places
-               inside a value (`Blank`s, addressed by a path);
+               in front of, between and behind the values (`Gap`s; a comment may follow a value
+               directly), and blanks at the places inside a value (`Blank`s, addressed by a path);
   * `render : Sentence → Layout → Bytes`   the text;
   * `denote : Sentence → Option (List Item)`   what it denotes, as C16's structured argument list
                (`ArgVal.Item`: values, arrays, `n x value`, `start / delta / count` ranges);
@@ -58,19 +58,29 @@ def Gap.bytes : Gap → Bytes
 
 def gapsBytes (g : List Gap) : Bytes := (g.map Gap.bytes).flatten
 
-/-- between two values (and between the last value and a trailing comment) there is at least
-    one white-space character, and a comment does not follow a value directly -/
+/-- between two values: the insertions; one blank when there is none.  A comment may follow a
+    value directly (upstream's own test "comment right after true": `true%false`); the line
+    break that ends it separates the values. -/
 def sepBytes (g : List Gap) : Bytes :=
   match g with
-  | .ws _ :: _ => gapsBytes g
-  | _ => 32 :: gapsBytes g
+  | [] => [32]
+  | g => gapsBytes g
 
-/-- behind the last value: nothing, or a separator; the text may end inside a comment -/
+/-- behind the last value: insertions; the text may end inside a comment -/
 def trailBytes (g : List Gap) (last : Option Bytes) : Bytes :=
-  match g, last with
-  | [], none => []
-  | g, none => sepBytes g
-  | g, some b => sepBytes g ++ 37 :: commentBody b
+  match last with
+  | none => gapsBytes g
+  | some b => gapsBytes g ++ 37 :: commentBody b
+
+/-- the insertions start with a white-space character -/
+def startsWs : List Gap → Bool
+  | .ws _ :: _ => true
+  | _ => false
+
+/-- the insertions start with a comment (which then follows the value directly) -/
+def startsComment : List Gap → Bool
+  | .comment _ :: _ => true
+  | _ => false
 
 structure Layout where
   lead : List Gap                  -- in front of the first value
@@ -78,6 +88,12 @@ structure Layout where
   trail : List Gap                 -- behind the last value
   last : Option Bytes              -- a comment without line break at the very end
   blank : List Nat → Blank         -- inside values, by path
+
+/-- no comment follows a value directly: every comment behind a value is preceded by white space
+    (the layouts for which the theorems of `Props/C11.lean` are proved) -/
+def Layout.spaced (L : Layout) : Prop :=
+  (∀ i, L.sep i = [] ∨ startsWs (L.sep i) = true) ∧
+  ((L.trail = [] ∧ L.last = none) ∨ startsWs L.trail = true)
 
 /-! ### scalar values and their spellings -/
 
@@ -365,6 +381,32 @@ end
 
 /-- **trigger predicate of C11-K1** -/
 def hasOctalPlain (s : List SVal) : Bool := hasOctalPlainList s
+
+/-- the spelling ends in a numeric word (`scanf_fmtstr` computes its end) -/
+def Tok.numWord : Tok → Bool
+  | .int .. => true
+  | .huge .. => true
+  | .flt _ _ _ none => true
+  | _ => false
+
+/-- the text of the value ends in a numeric word -/
+def SVal.endsNum : SVal → Bool
+  | .val t => t.numWord
+  | .rep _ x => x.endsNum
+  | .range _ c => c.numWord
+  | .arr _ _ => false
+
+/-- a value (numbered from `i`) that ends in a numeric word is directly followed by a comment -/
+def numPercentFrom (L : Layout) : Nat → List SVal → Bool
+  | _, [] => false
+  | _, [x] => x.endsNum && (startsComment L.trail || (L.trail.isEmpty && L.last.isSome))
+  | i, x :: y :: r => (x.endsNum && startsComment (L.sep i)) || numPercentFrom L (i + 1) (y :: r)
+
+/-- **trigger predicate of C11-K2**: a numeric literal directly followed by '%' (`42%c`):
+    `scanf_fmtstr` ends the numeric word at white space, ')' , ']' and "..." but not at the comment
+    sign, so no format matches the word and the text is rejected, although `true%c`, `"s"%c`,
+    `'a'%c`, `[1]%c`, `abc%c`, `#12345678%c` are accepted -/
+def hasNumPercent (s : List SVal) (L : Layout) : Bool := numPercentFrom L 0 s
 
 /-- the values with the separators between them -/
 def valuesText (L : Layout) : Nat → List SVal → Bytes
